@@ -157,7 +157,24 @@ fn parse_ifdata_item(
         A2mlTypeSpec::Sequence(seqspec) => {
             let mut seqitems = Vec::new();
             let mut checkpoint = parser.get_tokenpos();
-            while let Ok(item) = parse_ifdata_item(parser, context, seqspec) {
+            let string_first = starts_with_string(seqspec);
+            loop {
+                // get_string() tolerates an identifier in place of a string. Where a further item of the sequence
+                // could begin, an identifier is the tag or enum item that follows the sequence instead
+                if string_first
+                    && matches!(
+                        parser.peek_token(),
+                        Some(A2lToken {
+                            ttype: A2lTokenType::Identifier,
+                            ..
+                        })
+                    )
+                {
+                    break;
+                }
+                let Ok(item) = parse_ifdata_item(parser, context, seqspec) else {
+                    break;
+                };
                 // an item that does not consume any input (e.g. an empty array or an empty taggedstruct)
                 // would be repeated forever
                 if parser.get_tokenpos() == checkpoint {
@@ -180,6 +197,18 @@ fn parse_ifdata_item(
             GenericIfData::TaggedUnion(result)
         }
     })
+}
+
+// starts_with_string()
+// does a value of this type begin with a string (char array)?
+fn starts_with_string(spec: &A2mlTypeSpec) -> bool {
+    match spec {
+        A2mlTypeSpec::Array(arraytype, _) => {
+            **arraytype == A2mlTypeSpec::Char || starts_with_string(arraytype)
+        }
+        A2mlTypeSpec::Struct(structspec) => structspec.first().is_some_and(starts_with_string),
+        _ => false,
+    }
 }
 
 // parse_ifdata_taggedstruct()
